@@ -153,8 +153,13 @@ impl SizeManifest {
             });
         }
 
-        // Validate total_size matches sum of esizes
-        let computed_total: u64 = self.entries.iter().map(|e| e.esize).sum();
+        // Validate total_size matches sum of esizes. The esizes come from the
+        // input: with 8-byte fields two entries are enough to exceed 64 bits.
+        let computed_total = self
+            .entries
+            .iter()
+            .try_fold(0u64, |acc, e| acc.checked_add(e.esize))
+            .ok_or(SizeError::TotalSizeOverflow)?;
         if computed_total != self.header.total_size() {
             return Err(SizeError::TotalSizeMismatch {
                 expected: self.header.total_size(),
@@ -360,6 +365,28 @@ mod tests {
             SizeManifest::parse(&data),
             Err(SizeError::TruncatedData { .. })
         ));
+    }
+
+    #[test]
+    fn test_esize_sum_beyond_u64_rejected() {
+        // Two 8-byte esizes whose sum does not fit in 64 bits: error, not a panic
+        let mut data = build_v1_manifest_bytes(1, 2, 0, 8, &[]);
+        for key in 0..2u8 {
+            data.push(key);
+            data.extend_from_slice(&u64::MAX.to_be_bytes());
+        }
+        assert!(matches!(
+            SizeManifest::parse(&data),
+            Err(SizeError::TotalSizeOverflow)
+        ));
+
+        let built = SizeManifestBuilder::new()
+            .version(1)
+            .esize_bytes(8)
+            .add_entry(vec![0x11; 9], u64::MAX)
+            .add_entry(vec![0x22; 9], 1)
+            .build();
+        assert!(matches!(built, Err(SizeError::TotalSizeOverflow)));
     }
 
     #[test]
